@@ -11,6 +11,7 @@
 #include "schedex/vrt.h"
 #else
 #include <thread>
+#include <tuple>
 namespace vrt {
 inline void op(const char*) {}
 }
@@ -89,6 +90,10 @@ static std::vector<Scenario> make_scenarios(bool thorough) {
                 [n](const FftPlan& p, int t, int c) { return H(p.solve(cletter(n, 100 + 10 * t + c))); }, nt, nt == 2 ? 2 : 1));
         }
     }
+    // a big composite plan (size-dependent paths such as a retained scratch buffer only exist from some length on)
+    S.push_back(shared_plan<FftPlan>(
+        "H1.FftPlan(6000,factor-big).t2", [] { return std::make_shared<FftPlan>(6000); },
+        [](const FftPlan& p, int t, int c) { return H(p.solve(cletter(6000, 900 + 10 * t + c))); }, 2, 2));
     for (K k : {K{"pow2", 16}, K{"even-composite", 30}, K{"odd-composite", 15}, K{"prime", 13}}) {
         const int n = k.n;
         S.push_back(shared_plan<FftPlanR>(
@@ -410,6 +415,8 @@ struct Explorer {
     std::set<std::string> race_sites;
     bool race_reported = false, mismatch_reported = false, deadlock_reported = false;
     bool stop = false;
+    bool coarse = false;                      // see explore(): first/last-per-address restriction for huge executions
+    uint64_t coarse_skipped = 0;
     const double TMO = 30.0;
 
     std::string res_key(const std::vector<std::vector<uint64_t>>& r) {
@@ -524,6 +531,11 @@ struct Explorer {
     // the subtree below the first preemptive alternative is explored by exactly one shard (round-robin).
     void explore(const std::vector<int>& prefix, int bound, bool dealt = false) {
         if (stop) return;
+        if (!ctx.replay && ctx.elapsed() > ctx.deadline_s) {   // soft deadline: stop expanding, say so, never a failure
+            ctx.cap("deadline: exploration of " + sc.name + " stopped before the bound was exhausted");
+            stop = true;
+            return;
+        }
         Exec e = exec_and_check(prefix, dealt);
         if (!e.ok && !e.out.deadlock) return;
         auto& pts = e.out.points;
@@ -533,11 +545,37 @@ struct Explorer {
             abound = 1;
             ctx.note("scenarios whose atomic-preemption bound was lowered to 1 (root execution has > 150 choice points)");
         }
+        if (prefix.empty() && pts.size() > 1000) {
+            // thousands of atomic operations per execution (reference counts inside a big shared plan): preemptions at atomics
+            // are restricted to the points right before the FIRST and the LAST operation of each library call on each
+            // synchronisation address (acquire/release pairs, first/last touch of a counter); stated in the evidence
+            coarse = true;
+            ctx.note("scenarios explored with preemptions at atomics only before the first/last operation of a call on each sync address (root execution has > 1000 choice points)");
+        }
+        std::vector<char> edge;
+        if (coarse) {
+            edge.assign(pts.size(), 0);
+            std::map<int, int> opidx;
+            std::map<std::tuple<int, int, uint64_t>, std::pair<size_t, size_t>> fl;
+            for (size_t i = 0; i < pts.size(); ++i) {
+                if (pts[i].kind == 1) ++opidx[pts[i].tid];
+                if (pts[i].kind != 2) continue;
+                auto key = std::make_tuple(pts[i].tid, opidx[pts[i].tid], (uint64_t)pts[i].addr);
+                auto it = fl.find(key);
+                if (it == fl.end()) fl[key] = {i, i};
+                else it->second.second = i;
+            }
+            for (auto& kv : fl) edge[kv.second.first] = edge[kv.second.second] = 1;
+        }
         int cost = 0, acost = 0;
         std::vector<int> chosen;
         for (size_t i = 0; i < pts.size(); ++i) {
             if (i >= prefix.size()) {
                 for (int alt = 1; alt < pts[i].n_enabled; ++alt) {
+                    if (coarse && pts[i].cur_enabled && pts[i].kind == 2 && !edge[i]) {
+                        ++coarse_skipped;
+                        continue;
+                    }
                     int c = cost + (pts[i].cur_enabled ? 1 : 0);
                     int ac = acost + ((pts[i].cur_enabled && pts[i].kind == 2) ? 1 : 0);
                     if (c > bound || ac > abound) continue;
@@ -656,11 +694,11 @@ int main(int argc, char** argv) {
         ctx.state(fnv(sc.name));
         for (auto& k : ex.outcomes) ctx.state(fnv(k, fnv(sc.name)));
         for (uint64_t i = 0; i < ex.execs; ++i) ctx.nontrivial_key(mix(mix(ctx.cur_hash, (uint64_t)ctx.shard), i + 1));
-        std::string summary = (fmt("%s [shard %d]: schedules=%llu (by preemptions 0/1/2/3+: %llu/%llu/%llu/%llu; at atomics 0/1/2: %llu/%llu/%llu) bound=%d abound=%d private-atomic alternatives pruned=%llu outcomes=%zu races=%zu %.1fs",
+        std::string summary = (fmt("%s [shard %d]: schedules=%llu (by preemptions 0/1/2/3+: %llu/%llu/%llu/%llu; at atomics 0/1/2: %llu/%llu/%llu) bound=%d abound=%d private-atomic alternatives pruned=%llu outcomes=%zu races=%zu coarse-skipped=%llu %.1fs",
                      sc.name.c_str(), ctx.shard, (unsigned long long)ex.execs, (unsigned long long)ex.by_pre[0], (unsigned long long)ex.by_pre[1],
                      (unsigned long long)ex.by_pre[2], (unsigned long long)(ex.by_pre[3] + ex.by_pre[4] + ex.by_pre[5] + ex.by_pre[6] + ex.by_pre[7]),
                      (unsigned long long)ex.by_apre[0], (unsigned long long)ex.by_apre[1], (unsigned long long)ex.by_apre[2], bound, ex.abound,
-                     (unsigned long long)ex.pruned, ex.outcomes.size(), ex.race_sites.size(), ctx.elapsed() - t0));
+                     (unsigned long long)ex.pruned, ex.outcomes.size(), ex.race_sites.size(), (unsigned long long)ex.coarse_skipped, ctx.elapsed() - t0));
         ctx.note(summary);
         if (getenv("VERIF_C09_VERBOSE")) fprintf(stderr, "%s\n", summary.c_str());
         {
